@@ -142,9 +142,15 @@ pub fn compile_trees(opts: &Opts) -> i32 {
         let mut v: Value = match serde_json::from_str(&js) { Ok(v) => v, Err(_) => continue };
         let t = match v.get("t").and_then(json_to_expr) { Some(t) => t, None => { eprintln!("BADTREE {}", js); continue; } };
         let o = v.get("o").and_then(json_to_opts).unwrap_or_default();
-        let c = run_compile(&t, &o, &paths);
+        let own_path: Option<Vec<String>> = v.get("path").and_then(from_cps).map(|p| vec![p]);
+        let c = run_compile(&t, &o, own_path.as_ref().unwrap_or(&paths));
         v["o"] = opts_to_json(&o);
         v["c"] = c;
+        // C04: the same construct carrying a benign marker, for the skeleton comparison
+        if let Some(t0) = v.get("t0").and_then(json_to_expr) {
+            let p0: Vec<String> = v.get("path0").and_then(from_cps).map(|p| vec![p]).unwrap_or_else(|| paths.clone());
+            v["c0"] = run_compile(&t0, &o, &p0);
+        }
         emit(&mut out, &v);
     }
     0
